@@ -23,6 +23,11 @@ structure CrdtOps (σ ω : Type) where
   spec : List ω → List ω → String := fun _ _ => ""
   /-- delivery discipline under which `spec` is claimed: may `op` be applied by a replica knowing `K` (log `U`)? -/
   ok : List ω → List ω → ω → Bool := fun _ _ _ => true
+  /-- second claimed region (a stronger discipline than `ok`, and no merges): specification fields printed only while the replica's
+  history stayed inside it.  Map<_,Orswot>: causal op-only delivery, nested reads (C05.nested_orswot_witnesses) -/
+  spec2 : List ω → List ω → String := fun _ _ => ""
+  /-- the extra delivery premise of the second region (on top of `ok`) -/
+  ok2 : List ω → List ω → ω → Bool := fun _ _ _ => true
   /-- the public API call behind `G` panics (e.g. `GList::insert` asserts `idx <= len`) -/
   genPanics : σ → Nat → List String → Bool := fun _ _ _ => false
   /-- `apply` panics on this op (before mutating anything) -/
@@ -62,6 +67,8 @@ structure MState (σ ω : Type) where
   /-- replicas that executed reset_remove or merged from one: excluded from the equal-knowledge oracle -/
   forgot : List Bool
   snapForgot : List (String × Bool)
+  /-- replicas whose history left the second region (a delivery violating `ok`/`ok2`, any merge, reset_remove, foreign actor) -/
+  taint2 : List Bool := []
 
 def lookup {β : Type} (k : String) : List (String × β) → Option β
   | [] => none
@@ -89,7 +96,7 @@ namespace MState
 variable {σ ω : Type}
 
 def new (T : CrdtOps σ ω) (n : Nat) : MState σ ω :=
-  ⟨List.replicate n T.init, List.replicate n [], [], [], List.replicate n false, [], List.replicate n false, []⟩
+  ⟨List.replicate n T.init, List.replicate n [], [], [], List.replicate n false, [], List.replicate n false, [], List.replicate n false⟩
 
 def rep (m : MState σ ω) (t : String) : Option Nat :=
   match t.toNat? with
@@ -106,6 +113,9 @@ def setTaint (m : MState σ ω) (r : Nat) (b : Bool) : MState σ ω :=
 def setForgot (m : MState σ ω) (r : Nat) (b : Bool) : MState σ ω :=
   { m with forgot := m.forgot.set r (m.forgot.getD r false || b) }
 
+def setTaint2 (m : MState σ ω) (r : Nat) (b : Bool) : MState σ ω :=
+  { m with taint2 := m.taint2.set r (m.taint2.getD r true || b) }
+
 def knownOps (m : MState σ ω) (r : Nat) : List ω :=
   (m.know.getD r []).filterMap (fun n => lookup n m.ops)
 
@@ -115,6 +125,8 @@ def obsRep (T : CrdtOps σ ω) (m : MState σ ω) (r : Nat) : String :=
   | none => "badrep"
   | some s =>
     let sp := if m.taint.getD r false then "" else T.spec (m.ops.map (·.2)) (m.knownOps r)
+    let sp2 := if m.taint.getD r false || m.taint2.getD r true then "" else T.spec2 (m.ops.map (·.2)) (m.knownOps r)
+    let sp := if sp = "" then sp2 else if sp2 = "" then sp else sp ++ " " ++ sp2
     if sp = "" then T.obs s else T.obs s ++ " | " ++ sp
 
 def exec (T : CrdtOps σ ω) (m : MState σ ω) (toks : List String) : MState σ ω × String :=
@@ -126,7 +138,9 @@ def exec (T : CrdtOps σ ω) (m : MState σ ω) (toks : List String) : MState σ
     | some r => genApply r r name args
   | "GA" :: rs :: as :: name :: args =>
     match m.rep rs, as.toNat? with
-    | some r, some a => genApply r a name args
+    | some r, some a =>
+      let (m', out) := genApply r a name args
+      (if a = r then m' else m'.setTaint2 r true, out)
     | _, _ => bad
   | "O" :: name :: args =>
     match (T.parseOp args).bind (T.admit m.ops name) with
@@ -140,7 +154,8 @@ def exec (T : CrdtOps σ ω) (m : MState σ ω) (toks : List String) : MState σ
       | some op, some s =>
         if T.applyPanics s op then (m, "panic") else
         let okd := T.ok (m.ops.map (·.2)) (m.knownOps r) op
-        let m' := ((m.setRep r (T.apply s op)).learn r [name]).setTaint r (!okd)
+        let okd2 := T.ok2 (m.ops.map (·.2)) (m.knownOps r) op
+        let m' := (((m.setRep r (T.apply s op)).learn r [name]).setTaint r (!okd)).setTaint2 r (!(okd && okd2))
         (m', obsRep T m' r)
       | _, _ => (m, "skip")
   | ["M", rs, rs2] =>
@@ -148,7 +163,7 @@ def exec (T : CrdtOps σ ω) (m : MState σ ω) (toks : List String) : MState σ
     | some r, some r2 =>
       match T.merge, m.reps[r]?, m.reps[r2]? with
       | some mg, some s, some s2 =>
-        let m' := ((m.setRep r (mg s s2)).learn r (m.know.getD r2 [])).setTaint r (m.taint.getD r2 false) |>.setForgot r (m.forgot.getD r2 false)
+        let m' := ((m.setRep r (mg s s2)).learn r (m.know.getD r2 [])).setTaint r (m.taint.getD r2 false) |>.setForgot r (m.forgot.getD r2 false) |>.setTaint2 r true
         (m', obsRep T m' r)
       | _, _, _ => (m, "nomerge")
     | _, _ => bad
@@ -170,7 +185,7 @@ def exec (T : CrdtOps σ ω) (m : MState σ ω) (toks : List String) : MState σ
       | some (s2, k2) =>
         match T.merge, m.reps[r]? with
         | some mg, some s =>
-          let m' := ((m.setRep r (mg s s2)).learn r k2).setTaint r ((lookup name m.snapTaint).getD false) |>.setForgot r ((lookup name m.snapForgot).getD false)
+          let m' := ((m.setRep r (mg s s2)).learn r k2).setTaint r ((lookup name m.snapTaint).getD false) |>.setForgot r ((lookup name m.snapForgot).getD false) |>.setTaint2 r true
           (m', obsRep T m' r)
         | _, _ => (m, "nomerge")
   | ["V", rs, name] =>
@@ -217,7 +232,7 @@ def exec (T : CrdtOps σ ω) (m : MState σ ω) (toks : List String) : MState σ
     | some r, some c =>
       match T.resetRemove, m.reps[r]? with
       | some rr, some s =>
-        let m' := ((m.setRep r (rr s c)).setTaint r true).setForgot r true
+        let m' := (((m.setRep r (rr s c)).setTaint r true).setForgot r true).setTaint2 r true
         (m', withSpec (T.obs (rr s c)) (T.rrSpec s c))
       | _, _ => (m, "norr")
     | _, _ => bad
@@ -229,7 +244,7 @@ def exec (T : CrdtOps σ ω) (m : MState σ ω) (toks : List String) : MState σ
       match T.resetRemove, T.ownClock, m.reps[r]? with
       | some rr, some oc, some s =>
         let c := oc s
-        let m' := ((m.setRep r (rr s c)).setTaint r true).setForgot r true
+        let m' := (((m.setRep r (rr s c)).setTaint r true).setForgot r true).setTaint2 r true
         (m', withSpec ("c=" ++ showClock c ++ " " ++ T.obs (rr s c)) (T.rrSpec s c))
       | _, _, _ => (m, "norr")
   | ["RRL", rs, cs1, cs2] =>
